@@ -30,3 +30,54 @@ package queryexecutor
 //@   ensures err == ErrFirstBlockLoad ==> lastFailStatus == graphsync.RequestFailedContentNotFound
 //@   ensures err == ErrCancelledByCommand ==> lastFailStatus == graphsync.RequestCancelled
 //@   ensures err != nil && err != ErrFirstBlockLoad && err != ErrCancelledByCommand ==> lastFailStatus == graphsync.RequestFailedUnknown
+
+//@ -- ============================ C03: one response entry per link the traversal asks for ============================
+//@ ghost lastLoadErr error     -- result of the most recent call of the task's block loader
+//@ ghost nSendResponse int     -- SendResponse calls on response builders
+//@ ghost nSkipMe int           -- times the traverser was told to skip the current link's subtree
+//@ ghost nPauseOps int         -- PauseRequest calls on response builders
+//@ func github.com/ipfs/go-graphsync/responsemanager/responseassembler.ResponseBuilder.PauseRequest
+//@   assumed
+//@   modifies nPauseOps
+//@   ghost nPauseOps := old(nPauseOps) + 1
+//@ func ResponseTask$Loader
+//@   assumed
+//@   modifies lastLoadErr, alloc
+//@   ghost lastLoadErr := result1
+//@ func github.com/ipfs/go-graphsync/responsemanager/responseassembler.ResponseBuilder.SendResponse
+//@   assumed
+//@   modifies nSendResponse, alloc
+//@   ghost nSendResponse := old(nSendResponse) + 1
+//@ -- a link the responder's store cannot supply: the traversal is told to skip what is below it and the link is
+//@ -- reported with no bytes (which the response marks missing) - not an error of the response
+//@ func QueryExecutor.loadBlock
+//@   lenient
+//@   safety off
+//@   modifies lastLoadErr, alloc
+//@   callsite $Loader: assert arg0 == lnkCtx && arg1 == lnk
+//@   callsite Traverser.Error argis "traversal.SkipMe{}": assert lastLoadErr != nil
+//@   ensures lastLoadErr != nil ==> len(result0) == 0 && result1 == nil
+//@ -- the per-block transaction: unless an update or signal error stops the response first, exactly one SendResponse, for
+//@ -- this link with these bytes - also when the response is being paused at this block
+//@ func QueryExecutor.sendResponse.func1
+//@   lenient
+//@   safety off
+//@   modifies nSendResponse, nPauseOps, alloc
+//@   callsite ResponseBuilder.SendResponse: assert arg0 == link && arg1 == data
+//@   ensures nSendResponse <= old(nSendResponse) + 1
+//@   ensures nSendResponse == old(nSendResponse) ==> result != nil
+//@   -- C06: a transaction that queued the pause status queues at most this one block with it and ends the traversal
+//@   ensures nPauseOps != old(nPauseOps) ==> result != nil
+//@ func QueryExecutor.checkForUpdates
+//@   lenient
+//@   safety off
+//@   modifies nPauseOps, alloc
+//@   loop 1 invariant nPauseOps == old(nPauseOps)
+//@   ensures nPauseOps != old(nPauseOps) ==> result != nil
+//@ -- every link the traversal asks for is loaded and then reported, in that order, with what the load returned
+//@ func QueryExecutor.runTraversal
+//@   lenient
+//@   safety off
+//@   modifies lastLoadErr, nSendResponse, alloc
+//@   callsite QueryExecutor.loadBlock: assert $lnk == lnk && $lnkCtx == lnkCtx
+//@   callsite QueryExecutor.sendResponse: assert $link == lnk && $data == data
